@@ -423,6 +423,7 @@ func crashSite(stderr string) string {
 			// The representative of a recursion cycle: a reference's method if the cycle passes through one (unbounded
 			// recursion over a reference cycle is one cause, whatever containers lie in between), else the smallest name.
 			best, ref := "", ""
+			allCompat := true
 			n := 0
 			for j := 0; j < len(rest) && n < 120; j++ {
 				if strings.HasPrefix(rest[j], "\t") || strings.HasPrefix(rest[j], " ") || !strings.Contains(rest[j], "pluginsdk/") {
@@ -439,12 +440,20 @@ func crashSite(stderr string) string {
 				if fn != "?" && (best == "" || fn < best) {
 					best = fn
 				}
+				if fn != "?" && !strings.Contains(strings.ToLower(fn), "compatibility") {
+					allCompat = false
+				}
 				if strings.Contains(fn, "(*RefSchema).") && (ref == "" || fn < ref) {
 					ref = fn
 				}
 			}
 			if ref != "" {
 				best = ref
+			} else if allCompat && best != "" {
+				// the visible part of the stack shows only the containers between two references (the dump is cut): a
+				// compatibility check can only recurse without end through a reference cycle, so it is named by the
+				// reference's method all the same
+				best = "schema.(*RefSchema).ValidateCompatibility"
 			}
 			return "a cycle through " + best
 		}
